@@ -257,6 +257,42 @@ def _rule_R21(text, args):
     return text, n
 
 
+def _rule_R31(text, args):
+    # E.try_into().expect("..") / E.try_into().unwrap()  ->  vstub_try_into_T(E)     (E a field path like u.0; T = args[0])
+    # (TryFrom between integer types is outside vstd; bound to a trusted stub whose PRECONDITION is that the value fits -
+    #  so the obligation "this expect / unwrap never fails" is generated at the call site - and whose result is the value)
+    t = args[0]
+    rx = re.compile(r"(?<![A-Za-z0-9_.])(?P<e>" + IDENT + r"(?:\.(?:" + IDENT + r"|\d+))*)\.try_into\(\)\.(?:expect\(\s*\"[^\"]*\"\s*\)|unwrap\(\))")
+    return rx.subn(lambda m: "vstub_try_into_%s(%s)" % (t, m.group("e")), text)
+
+
+def _rule_R32(text, args):
+    # parse::Error { field: expr, .. }  ->  vstub_parse_error_literal()
+    # (a struct LITERAL of the error type, whose fields are message texts built with `.into()` / format! / vec![]: the
+    #  literal is replaced by a call of a trusted constructor stub and its field expressions - texts, the offending token,
+    #  the formatted number; no calls with effects - are DROPPED.  Refused when a field expression contains `?` or `(` other
+    #  than the ones of Some(..) / .into() / format![..] / vec![..].)
+    out, n, i = [], 0, 0
+    while True:
+        j = text.find("parse::Error {", i)
+        if j < 0:
+            out.append(text[i:]); break
+        k = text.index("{", j); d = 0; e = k
+        while True:
+            if text[e] == "{": d += 1
+            elif text[e] == "}":
+                d -= 1
+                if d == 0: break
+            e += 1
+        body = text[k + 1:e]
+        chk = re.sub(r'"(?:[^"\\]|\\.)*"', '""', body)     # (string literals first: their text may hold parentheses)
+        chk = re.sub(r"Some\([^()]*\)|\.into\(\)|format!\[[^\[\]]*\]|vec!\[\s*\]", "", chk)
+        if "?" in chk or "(" in chk:
+            out.append(text[i:e + 1]); i = e + 1; continue
+        out.append(text[i:j]); out.append("vstub_parse_error_literal()"); i = e + 1; n += 1
+    return "".join(out), n
+
+
 def _rule_R23(text, args):
     # X.last_mut()  ->  vstub_vec_last_mut(X)     (X an identifier of type &mut Vec<T>)
     # (slice::last_mut through Vec's DerefMut is outside vstd; bound to a trusted stub: None on an empty vector, else a
@@ -452,7 +488,7 @@ def _rule_R16(text, args):
     return rx.subn(lambda m: 'write!(%s, "{}%s", %s)' % (m.group(1), m.group(3), m.group(2)), text)
 
 
-RULES = {"R30": _rule_R30, "R29": _rule_R29, "R28": _rule_R28, "R27": _rule_R27, "R26": _rule_R26, "R25": _rule_R25, "R24": _rule_R24, "R23": _rule_R23, "R21": _rule_R21, "R20": _rule_R20, "R19": _rule_R19, "R18": _rule_R18, "R17": _rule_R17, "R16": _rule_R16, "R15": _rule_R15, "R6": _rule_R6, "R14": _rule_R14, "R13": _rule_R13, "R1": _rule_R1, "R4": _rule_R4, "R4rev": _rule_R4rev, "R11": _rule_R11, "R8": _rule_R8, "R7": _rule_R7,
+RULES = {"R32": _rule_R32, "R31": _rule_R31, "R30": _rule_R30, "R29": _rule_R29, "R28": _rule_R28, "R27": _rule_R27, "R26": _rule_R26, "R25": _rule_R25, "R24": _rule_R24, "R23": _rule_R23, "R21": _rule_R21, "R20": _rule_R20, "R19": _rule_R19, "R18": _rule_R18, "R17": _rule_R17, "R16": _rule_R16, "R15": _rule_R15, "R6": _rule_R6, "R14": _rule_R14, "R13": _rule_R13, "R1": _rule_R1, "R4": _rule_R4, "R4rev": _rule_R4rev, "R11": _rule_R11, "R8": _rule_R8, "R7": _rule_R7,
          "R9": _rule_R9, "R12": _rule_R12}
 
 
